@@ -25,7 +25,7 @@ VERIF = os.path.dirname(os.path.dirname(os.path.abspath(__file__)))
 
 ASSUMPTIONS = {
     "A-LOG": "tracing/logging calls (trace_component_msg, trace_node_msg, logger.*) have no effect on state or control flow; DEBUG_HIGHLIGHT_* settings are off",
-    "A-UNI": "z3's character range covers Python's code points; bytes are code points < 256",
+    "A-UNI": "strings are sequences of z3 characters U+0000..U+2FFFF; Python code points above U+2FFFF (planes 3-16, unassigned / private use) are not represented; bytes are code points < 256",
     "A-UTF8": "str.encode()/bytes.decode() are mutually inverse on well-formed text, identity on ASCII",
     "A-RE": "Python's `re` scans leftmost, non-overlapping, in increasing order with the documented greedy/lazy choice; the LANGUAGE of each constant pattern is not assumed but translated from the source (regex2smt)",
     "A-ID": "gen_id() returns an id distinct from every live id (probabilistic)",
@@ -324,6 +324,13 @@ def run_check(pid, mod, tier, seed):
         "samples": samples,
         "repo": REPO,
     }
+    # ---- self-check of the regex translation against CPython's `re` on every pattern this run translated
+    from . import regex2smt
+    selfcheck_bad = []
+    if regex2smt.TRANSLATED:
+        n_cmp, rx_bad = regex2smt.differential(samples=1500 if tier == "thorough" else 150, seed=seed)
+        coverage["regex_translation_differential"] = {"patterns": len(regex2smt.TRANSLATED), "comparisons_with_re_fullmatch": n_cmp, "mismatches": rx_bad[:5]}
+        selfcheck_bad = rx_bad
     extra = getattr(mod, "EVIDENCE_EXTRA", None)
     if extra:
         coverage.update(extra() if callable(extra) else extra)
@@ -346,6 +353,11 @@ def run_check(pid, mod, tier, seed):
         print(f"KNOWN-FINDING: property={pid} {kf.get('what', kf.get('id'))}")
     status = "held"
     code = 0
+    if selfcheck_bad:
+        status = "checker-failure"
+        code = 3
+        for b in selfcheck_bad[:5]:
+            print(f"CHECKER-FAILURE property={pid} regex translation disagrees with re.fullmatch: pattern={b['pattern']!r} word={b['word']!r}")
     if errors or cover_bad:
         status = "checker-failure"
         code = 3
